@@ -79,6 +79,7 @@ class Alias:
         s.sinks = []
         s.returns = set()
         s.maybe = []
+        s.kinds = {}      # name -> 'array' | 'int'  (coarse type of local names, for basic vs advanced indexing)
 
     # ---- expression aliasing
     def al(s, e, env):
@@ -100,7 +101,7 @@ class Alias:
             if p is not None and p in env: return set(env[p])
             if p is not None and any(p.startswith(sp) for sp in s.shared_paths): return {p}
             base = s.al(e.value, env)
-            bi = is_basic_index(e.slice)
+            bi = s.basic_index(e.slice)
             if isinstance(e.slice, ast.Constant) and isinstance(e.slice.value, str):
                 return {f"elem:{b}" if b != FRESH else FRESH for b in base}   # dict element
             if bi is False: return {FRESH}
@@ -120,6 +121,51 @@ class Alias:
             return out or {FRESH}
         if isinstance(e, ast.Call): return s.al_call(e, env)
         return {FRESH}     # arithmetic, comparisons, constants, comprehensions, f-strings, lambdas, dicts
+
+    def kind_of(s, v):
+        if isinstance(v, ast.Constant): return "int" if isinstance(v.value, int) and not isinstance(v.value, bool) else None
+        if isinstance(v, ast.Name): return s.kinds.get(v.id)
+        if isinstance(v, ast.Call):
+            nm = dotted(v.func) or ""
+            short = nm.split(".")[-1]
+            if short in ("int", "len", "round_half_up"): return "int"
+            if short in ("arange", "asarray", "array", "ascontiguousarray", "zeros", "ones", "empty", "linspace", "round", "clip", "floor",
+                         "ceil", "searchsorted", "where", "nonzero", "argsort", "astype"): return "array"
+            if isinstance(v.func, ast.Attribute) and v.func.attr in ("astype", "copy", "ravel", "flatten"): return "array"
+            return None
+        if isinstance(v, ast.BinOp):
+            a, b = s.kind_of(v.left), s.kind_of(v.right)
+            if "array" in (a, b): return "array"
+            if a == "int" and b == "int": return "int"
+            return None
+        if isinstance(v, ast.Compare): return "array" if any(s.kind_of(x) == "array" for x in [v.left] + v.comparators) else None
+        if isinstance(v, ast.Subscript):
+            if s.kind_of(v.value) == "array" and s.basic_index(v.slice) is not True: return "array"
+            if isinstance(v.slice, ast.Tuple) and any(isinstance(e, ast.Constant) and e.value is None for e in v.slice.elts): return "array"
+            if isinstance(v.slice, ast.Slice): return "array"
+            return None
+        if isinstance(v, (ast.List, ast.ListComp)): return "array"
+        return None
+
+    def basic_index(s, sl):
+        r = is_basic_index(sl)
+        if r is not None: return r
+        if isinstance(sl, ast.Name):
+            k = s.kinds.get(sl.id)
+            if k == "array": return False
+            if k == "int": return True
+            return None
+        if isinstance(sl, ast.Tuple):
+            rs = [s.basic_index(e) for e in sl.elts]
+            if any(x is False for x in rs): return False
+            if all(x is True for x in rs): return True
+            return None
+        if isinstance(sl, ast.BinOp):
+            k = s.kind_of(sl)
+            if k == "array": return False
+            if k == "int": return True
+        if isinstance(sl, ast.Call) and s.kind_of(sl) == "int": return True
+        return None
 
     def al_call(s, c, env):
         f = c.func
@@ -188,7 +234,9 @@ class Alias:
 
     def bind(s, t, val_aliases, env, value_node=None):
         if isinstance(t, ast.Name):
-            env[t.id] = set(val_aliases); return
+            env[t.id] = set(val_aliases)
+            if value_node is not None: s.kinds[t.id] = s.kind_of(value_node)
+            return
         if isinstance(t, (ast.Tuple, ast.List)):
             if isinstance(value_node, (ast.Tuple, ast.List)) and len(value_node.elts) == len(t.elts):
                 for te, ve in zip(t.elts, value_node.elts): s.bind(te, s.al(ve, env), env, ve)
@@ -277,6 +325,8 @@ class Alias:
                 s.scan_calls(st.iter, env)
                 it = s.al(st.iter, env)
                 s.bind(st.target, {x[5:] if x.startswith("elem:") else ("elem:" + x if x != FRESH else FRESH) for x in it}, env)
+                if isinstance(st.target, ast.Name) and isinstance(st.iter, ast.Call) and (dotted(st.iter.func) or "").split(".")[-1] in ("range", "prange", "_prange"):
+                    s.kinds[st.target.id] = "int"
             else:
                 s.scan_calls(st.test, env)
             n0 = len(s.sinks)
